@@ -115,6 +115,80 @@ fn tails(u: u32) -> &'static [usize] {
     }
 }
 
+/// field codecs that read a count byte and that many var-ints through the context they are handed
+struct VSeqU(Vec<u32>);
+impl desert::BinaryDeserializer for VSeqU {
+    fn deserialize(context: &mut DeserializationContext<'_>) -> desert::Result<Self> {
+        let n = context.read_u8()?;
+        (0..n).map(|_| context.read_var_u32()).collect::<desert::Result<Vec<u32>>>().map(VSeqU)
+    }
+}
+struct VSeqI(Vec<u32>);
+impl desert::BinaryDeserializer for VSeqI {
+    fn deserialize(context: &mut DeserializationContext<'_>) -> desert::Result<Self> {
+        let n = context.read_u8()?;
+        (0..n).map(|_| context.read_var_i32().map(|x| x as u32)).collect::<desert::Result<Vec<u32>>>().map(VSeqI)
+    }
+}
+
+/// The values laid out (by the reference formulas) as the three chunks of a version-2 record behind a prefix of
+/// `round % 5` bytes and before a tail; read back through AdtDeserializer, i.e. from regions of the input whose
+/// start is not the start of the buffer.
+fn read_inside_chunks(vals: &[u32], signed: bool, round: usize) -> Result<(), String> {
+    use desert::adt::{AdtDeserializer, AdtMetadata};
+    use desert::Evolution;
+    use vmodel::refcodec::var_i32;
+    let meta = AdtMetadata::new(vec![Evolution::InitialVersion, Evolution::FieldAdded { name: "b".into() }, Evolution::FieldAdded { name: "c".into() }]);
+    let third = vals.len().div_ceil(3).max(1);
+    let parts: Vec<&[u32]> = vec![&vals[..third.min(vals.len())], &vals[third.min(vals.len())..(2 * third).min(vals.len())], &vals[(2 * third).min(vals.len())..]];
+    let chunks: Vec<Vec<u8>> = parts
+        .iter()
+        .map(|p| {
+            let mut c = vec![p.len() as u8];
+            for x in p.iter() {
+                var_u32(if signed { zigzag(*x as i32) } else { *x }, &mut c);
+            }
+            c
+        })
+        .collect();
+    let mut input: Vec<u8> = TAIL[..round % 5].to_vec();
+    input.push(2);
+    for c in &chunks {
+        var_i32(c.len() as i32, &mut input);
+    }
+    for c in &chunks {
+        input.extend_from_slice(c);
+    }
+    input.extend_from_slice(&TAIL[..(round * 3) % 11]);
+    let mut ctx = DeserializationContext::new(&input);
+    let e = |x: desert::Error| format!("reading var-ints from the chunks of a record failed: {x:?} (input {})", vmodel::hex(&input));
+    for _ in 0..round % 5 {
+        ctx.read_u8().map_err(e)?;
+    }
+    let stored = ctx.read_u8().map_err(e)?;
+    let got: Vec<Vec<u32>> = {
+        let mut de = AdtDeserializer::new(&meta, &mut ctx, stored).map_err(e)?;
+        if signed {
+            vec![de.read_field::<VSeqI>("a", None).map_err(e)?.0, de.read_field::<VSeqI>("b", None).map_err(e)?.0, de.read_field::<VSeqI>("c", None).map_err(e)?.0]
+        } else {
+            vec![de.read_field::<VSeqU>("a", None).map_err(e)?.0, de.read_field::<VSeqU>("b", None).map_err(e)?.0, de.read_field::<VSeqU>("c", None).map_err(e)?.0]
+        }
+    };
+    for (g, p) in got.iter().zip(&parts) {
+        if g[..] != p[..] {
+            return Err(format!("var-ints read from a chunk of an evolved record came back as {g:?} instead of {p:?} (input {})", vmodel::hex(&input)));
+        }
+    }
+    let mut left = 0;
+    while ctx.read_u8().is_ok() {
+        left += 1;
+    }
+    if left != (round * 3) % 11 {
+        return Err(format!("{left} bytes left after the record instead of {}", (round * 3) % 11));
+    }
+    Ok(())
+}
+
 fn new_bufs() -> Bufs {
     Bufs { vec: Vec::with_capacity(8), bm: BytesMut::with_capacity(8), reference: Vec::with_capacity(8) }
 }
@@ -255,6 +329,12 @@ pub fn run(cx: &Cx) -> PropResult {
                         break;
                     }
                 }
+                // ... and the same values from inside the chunks of an evolved record that sits in the middle of a buffer
+                if bad.is_none() {
+                    if let Err(e) = read_inside_chunks(&vals, signed, round as usize) {
+                        bad = Some(e);
+                    }
+                }
                 if bad.is_none() {
                     let rest = |i: &mut dyn BinaryInput| {
                         let mut n = 0;
@@ -292,7 +372,7 @@ pub fn run(cx: &Cx) -> PropResult {
     let mut r = PropResult::new(
         acc,
         "exploration",
-        "values x: +-4096 around every width boundary (2^7, 2^14, 2^21, 2^28, 2^31, 0, 2^32-1) for u32 and for the zig-zag pre-images for i32, the lattice k*65537, and seeded random values of uniformly chosen bit length; thorough tier in the release profile enumerates all 2^32 u32 and all 2^32 i32 values (values of an enumeration are distinct by construction and are counted, not hashed). Oracle: bytes written to Vec<u8> and BytesMut equal the independently computed LEB128 / zig-zag reference, SizeCalculator.size() == that length == minimal length, continuation bit on all but the last byte, SliceInput / OwnedInput / DeserializationContext read the value back and leave the sentinel byte that follows unread. Every value is read with 1 and with 9 further bytes behind it (values within 2 of a width boundary: 0..=16 bytes, with and without continuation bits). Also streams of 1-40 values appended to one Vec<u8> and one BytesMut (fresh, or with 1-9 bytes of initial capacity so that it must grow mid-value) and read back in order through all three inputs from a buffer that continues for 0-16 bytes. Non-trivial = needs >= 2 bytes.",
+        "values x: +-4096 around every width boundary (2^7, 2^14, 2^21, 2^28, 2^31, 0, 2^32-1) for u32 and for the zig-zag pre-images for i32, the lattice k*65537, and seeded random values of uniformly chosen bit length; thorough tier in the release profile enumerates all 2^32 u32 and all 2^32 i32 values (values of an enumeration are distinct by construction and are counted, not hashed). Oracle: bytes written to Vec<u8> and BytesMut equal the independently computed LEB128 / zig-zag reference, SizeCalculator.size() == that length == minimal length, continuation bit on all but the last byte, SliceInput / OwnedInput / DeserializationContext read the value back and leave the sentinel byte that follows unread. Every value is read with 1 and with 9 further bytes behind it (values within 2 of a width boundary: 0..=16 bytes, with and without continuation bits). Also streams of 1-40 values appended to one Vec<u8> and one BytesMut (fresh, or with 1-9 bytes of initial capacity so that it must grow mid-value) and read back in order through all three inputs from a buffer that continues for 0-16 bytes, and once more from inside the three chunks of an evolved record placed in the middle of a buffer (regions of the context that do not start at offset 0). Non-trivial = needs >= 2 bytes.",
     );
     if exhaustive {
         r.exhaustive = Some(true);
